@@ -515,7 +515,6 @@ func (e *MetaCDC) Create(req *request.CreateRequest) (resp *request.CreateRespon
 			for vchannel, collectionPosition := range collectionInfo.Positions {
 				channelInfo, err := util.ParseVChannel(vchannel)
 				if err != nil {
-					revertCollectionNames()
 					return servererror.NewClientError(fmt.Sprintf("the vchannel is invalid, %s, err: %s", vchannel, err.Error()))
 				}
 				decodePosition, err := util.Base64DecodeMsgPosition(collectionPosition)
@@ -538,7 +537,6 @@ func (e *MetaCDC) Create(req *request.CreateRequest) (resp *request.CreateRespon
 					collectionID = channelInfo.CollectionID
 				}
 				if collectionID != channelInfo.CollectionID {
-					revertCollectionNames()
 					return servererror.NewClientError("the channel position info should be in the same collection")
 				}
 			}
